@@ -590,7 +590,7 @@ struct Plan {
 fn plan_for(property: &str, tier: &str) -> Plan {
     let t = |q: u64, th: u64| if tier == "thorough" { th } else { q };
     match property {
-        "C17" => Plan { scenarios: vec![("session_clean", t(20_000, 600_000))], level: "exploration",
+        "C17" => Plan { scenarios: vec![("session_clean", t(20_000, 600_000)), ("watch", t(6_000, 150_000))], level: "exploration",
             rule: "one case = capacity + a history of editor ops on a small project (valid / invalid snippets, schema and extension variants), compiles, process restarts (with stray content written into the artifact directory) and GCs; around every compile that reports diagnostics without an injected fault, seam H3 must have seen no file-system operation and the before/after snapshots of the artifact tree (paths and bytes) must be equal. Non-trivial: at least one successful and one failing compile (or two successful ones) in the run. Distinct = distinct case hash." },
         "C18" => Plan { scenarios: vec![("session_clean", t(5_000, 400_000)), ("fsplan", t(30_000, 3_000_000))], level: "exploration",
             rule: "session runs as in C17: after every successful unfaulted compile the artifact tree must equal that compile's artifact map exactly (files, bytes, no directory without an artifact below it), for the first compile of a session whatever the directory held, and later compiles of a session must not write a file whose content did not change; an unfaulted compile that fails in the write phase is a violation. fsplan runs: seeded sequences of synthetic artifact sets (root only, nested only, mixed, empty, entities/selectables/files added and removed, equal and changed contents) through the real planner and writer with restarts and prior garbage. Non-trivial: session as C17; fsplan = the run saw both a DeleteDirectory and a DeleteFile from the diff path. Distinct = distinct case hash." },
